@@ -640,6 +640,20 @@ func (vm *VM) nextCall() bool {
 				vm.fn = call.cl.fn
 				vm.vars = call.cl.vars
 				vm.renderer = call.renderer
+				// A deferred call has not been checked for the size of the
+				// stacks: only its arguments have been stored.
+				if vm.fp[0]+Addr(vm.fn.NumReg[0]) >= vm.st[0] {
+					vm.moreIntStack()
+				}
+				if vm.fp[1]+Addr(vm.fn.NumReg[1]) >= vm.st[1] {
+					vm.moreFloatStack()
+				}
+				if vm.fp[2]+Addr(vm.fn.NumReg[2]) >= vm.st[2] {
+					vm.moreStringStack()
+				}
+				if vm.fp[3]+Addr(vm.fn.NumReg[3]) >= vm.st[3] {
+					vm.moreGeneralStack()
+				}
 				return true
 			}
 			vm.fp = call.fp
